@@ -640,6 +640,14 @@ pub mod frames {
                         "frame too short",
                     ));
                 }
+                // no host name is longer than 253 bytes, and the frame header of the next hop
+                // stores `len + 2` in one byte
+                if len > 253 {
+                    return Err(IoError::new(
+                        std::io::ErrorKind::InvalidData,
+                        "domain too long",
+                    ));
+                }
                 let domain = String::from_utf8(body.split_to(len).to_vec())
                     .map_err(|e| IoError::new(std::io::ErrorKind::InvalidData, e))?;
                 let dport = body.get_u16();
